@@ -46,10 +46,10 @@ def gen(seed, index):
     rng = rng_for(PID, seed, index)
     if rng.random() < 0.4:
         kind = rng.choice(["add", "add", "index", "index", "tag", "tag", "topindex", "unmatched_index", "unmatched_tag",
-                           "chain_index", "chain_tag", "self_index"])
+                           "chain_index", "chain_tag", "self_index", "padded_index", "padded_tag"])
         unit = rng.choice([2500000000, 10000000000, 5000000000])
         da, db = rng.randint(1, 6) * unit, rng.randint(1, 6) * unit
-        if rng.random() < 0.08 and not kind.startswith(("unmatched", "chain", "self")):
+        if rng.random() < 0.08 and not kind.startswith(("unmatched", "chain", "self", "padded")):
             da = 0          # an empty first operand (or one holding only zero-length events) that still carries a tempo
 
         def tempo(d):
@@ -166,7 +166,9 @@ def oracle(case, io, mo):
         da = int(case[3])
         for row in grid:
             x, vr, vo = int(row[0]), m2.fl(row[1]), m2.fl(row[2])
-            if abs(vr - vo) > 2e-8 * max(1, abs(vo)) and case[1].startswith("unmatched"):
+            if abs(vr - vo) > 2e-8 * max(1, abs(vo)) and case[1].startswith("unmatched") and case[4][0] != "D":
+                # finding F9 is about a TRAJECTORY that is not shifted; a constant tempo of the new voice needs no shifting
+                # and has to be that constant
                 return (f"[F9] a voice that only the second operand has: its tempo at {x} is {vr!r}, the second operand's tempo "
                         f"shifted by the first operand's duration has {vo!r} (the tempo of the new voice is not shifted)")
             if abs(vr - vo) > 2e-8 * max(1, abs(vo)):
